@@ -40,10 +40,47 @@ func init() {
 }
 
 func runC03(p *core.Program, r *core.Report) {
+	m := checkAlphabetBuilder(p, r)
+	if m == nil {
+		return
+	}
+
+	// R3.4 shape (shared with C02)
+	if g, why := resolveCharGen(p); g == nil {
+		r.Unrecognised("R3.4", "(spg.CharRecipe).Generate", "generation shape", "", why)
+	} else {
+		gname := core.FuncName(g.fn)
+		// Length<1 refused first
+		first := g.fn.Blocks[0]
+		okLen := false
+		if iff, ok := first.Instrs[len(first.Instrs)-1].(*ssa.If); ok {
+			if rel, ok := core.AsRel(core.Guard{Cond: iff.Cond, Pos: true, If: iff}); ok && recipeField(rel.X, "Length") {
+				if k, isC := core.ConstInt(rel.Y); isC && ((rel.Op == token.LSS && k == 1) || (rel.Op == token.LEQ && k == 0)) {
+					okLen = failsClosed(first.Succs[0], map[*ssa.BasicBlock]bool{})
+				}
+			}
+		}
+		r.Check(okLen, "R3.4", gname, "Length < 1 is refused with an error before anything else", p.Pos(g.fn.Pos()), "")
+		checkDrawShape(p, r, g, "R3.4", "R3.4")
+		checkWholeCandidateRejection(p, r, g, "R3.4")
+		checkFilterAllOf(p, r, g, "R3.4")
+		// Generate indexes the same builder
+		r.Check(g.builder != nil && core.StaticCallee(g.builder) == m.fn, "R3.5", gname, "Generate draws from the builder's output", p.InstrPos(g.draw), "")
+	}
+
+	// R3.5 Alphabet()
+	checkAlphabetMethod(p, r, m)
+}
+
+// checkAlphabetBuilder applies R3.1-R3.3 to the alphabet builder: the alphabet is
+// (allowed ∪ required) with every excluded character removed, and the stored
+// allowed/required sets are clean. Also run by C02 (as R2.1), whose "strings over
+// the recipe's alphabet … and no other string" is about this alphabet.
+func checkAlphabetBuilder(p *core.Program, r *core.Report) *builderModel {
 	m, why := resolveBuilder(p)
 	if m == nil {
 		r.Unrecognised("R3.1", "-", "alphabet builder", "", why)
-		return
+		return nil
 	}
 	name := core.FuncName(m.fn)
 	pos := p.Pos(m.fn.Pos())
@@ -60,7 +97,7 @@ func runC03(p *core.Program, r *core.Report) {
 	// R3.1
 	if m.E == nil {
 		r.Fail("R3.1", name, "excluded set E is built from the excluded accumulator", pos, "no set is constructed from the string that accumulates ExcludeChars and the excluded classes")
-		return
+		return m
 	}
 	m.computeClean(p)
 	// allowed set built from the allowed accumulator
@@ -134,31 +171,7 @@ func runC03(p *core.Program, r *core.Report) {
 			"no full sweep over the required sets unconditionally stores `set.Difference(E)` back into each element (a subtraction applied to a copy, or skipped, lets a required-but-excluded character count as satisfying — or be demanded by — the recipe)")
 	}
 
-	// R3.4 shape (shared with C02)
-	if g, why := resolveCharGen(p); g == nil {
-		r.Unrecognised("R3.4", "(spg.CharRecipe).Generate", "generation shape", "", why)
-	} else {
-		gname := core.FuncName(g.fn)
-		// Length<1 refused first
-		first := g.fn.Blocks[0]
-		okLen := false
-		if iff, ok := first.Instrs[len(first.Instrs)-1].(*ssa.If); ok {
-			if rel, ok := core.AsRel(core.Guard{Cond: iff.Cond, Pos: true, If: iff}); ok && recipeField(rel.X, "Length") {
-				if k, isC := core.ConstInt(rel.Y); isC && ((rel.Op == token.LSS && k == 1) || (rel.Op == token.LEQ && k == 0)) {
-					okLen = failsClosed(first.Succs[0], map[*ssa.BasicBlock]bool{})
-				}
-			}
-		}
-		r.Check(okLen, "R3.4", gname, "Length < 1 is refused with an error before anything else", p.Pos(g.fn.Pos()), "")
-		checkDrawShape(p, r, g, "R3.4", "R3.4")
-		checkWholeCandidateRejection(p, r, g, "R3.4")
-		checkFilterAllOf(p, r, g, "R3.4")
-		// Generate indexes the same builder
-		r.Check(g.builder != nil && core.StaticCallee(g.builder) == m.fn, "R3.5", gname, "Generate draws from the builder's output", p.InstrPos(g.draw), "")
-	}
-
-	// R3.5 Alphabet()
-	checkAlphabetMethod(p, r, m)
+	return m
 }
 
 func isSetTypedAddr(fa *ssa.FieldAddr) bool {
